@@ -63,6 +63,12 @@ def cases(rng, tier):
                 cands = cands[:1] + rng.sample(cands[1:], 9)
             for tag, c in cands:
                 cs.append(Case("bls.Verify", [s, tb(pk), tb(m), tb(c)], tags=(tag,)))
+    ska = rng.randrange(1, O.BLS_R)
+    pka = pk_of(ska)
+    AUG = suite_cls("aug")
+    cs.append(Case("bls.Verify", ["aug", tb(pka), tb(pka + b"m"), tb(AUG.Sign(ska, b"m"))], tags=("aug-prefix",)))
+    cs.append(Case("bls.Verify", ["aug", tb(pka), tb(b"m"), tb(AUG.Sign(ska, pka + b"m"))], tags=("aug-prefix",)))
+    cs.append(Case("bls.Sign", ["aug", ska, tb(pka + b"m")], tags=("aug-prefix",)))
     sk = rng.randrange(1, O.BLS_R)
     from py_ecc.bls import G2ProofOfPossession as POP
     pk = pk_of(sk)
@@ -70,6 +76,43 @@ def cases(rng, tier):
     for tag, c in [("canonical", proof), ("sig-as-pop", POP.Sign(sk, pk)), ("neg", enc_g2(O.aff_neg(dec_g2(proof)))), ("flip", flip(proof, rng.randrange(768)))]:
         cs.append(Case("bls.PopVerify", [tb(pk), tb(c)], tags=(tag,)))
     return cs
+
+
+def cross_history_pred(ska, skb):
+    """one interpreter, POP suite: a signature on the key bytes is NOT a possession proof and vice versa, in both call orders"""
+    from py_ecc.bls import G2ProofOfPossession as POP
+    bad = []
+    pka, pkb = pk_of(ska), pk_of(skb)
+    sig = POP.Sign(ska, pka)
+    if POP.PopVerify(pka, sig):
+        bad.append("PopVerify accepted an ordinary signature on the key bytes (after Sign)")
+    proof = POP.PopProve(ska)
+    if proof == sig:
+        bad.append("PopProve returned the ordinary signature bytes")
+    proofb = POP.PopProve(skb)
+    POP.PopVerify(pkb, proofb)
+    if POP.Verify(pkb, pkb, proofb):
+        bad.append("Verify accepted a possession proof as a signature on the key bytes (after PopVerify)")
+    if not POP.PopVerify(pkb, proofb) or not POP.Verify(pka, pka, sig):
+        bad.append("an honest proof/signature is rejected later in the history")
+    return (not bad, f"POP suite cross-tag history: {bad}")
+
+
+def aug_prefix_pred(sk, m):
+    """augmentation suite: messages that start with the signer's own public key"""
+    from py_ecc.bls import G2MessageAugmentation as AUG
+    pk = pk_of(sk)
+    bad = []
+    s_m, s_pm = AUG.Sign(sk, m), AUG.Sign(sk, pk + m)
+    if s_m == s_pm:
+        bad.append("Sign(sk, m) == Sign(sk, pk||m)")
+    if AUG.Verify(pk, pk + m, s_m) or AUG.Verify(pk, m, s_pm):
+        bad.append("a signature verifies for a message with/without the key prefix")
+    if not AUG.Verify(pk, pk + m, s_pm) or not AUG.Verify(pk, m, s_m):
+        bad.append("honest signature rejected")
+    if AUG.Sign(sk, pk) == AUG.Sign(sk, b""):
+        bad.append("Sign(sk, pk) == Sign(sk, b'')")
+    return (not bad, f"AUG suite, message beginning with the signer's key: {bad}")
 
 
 def exact_pred(s, pk, m, canonical, tag, cand):
@@ -105,6 +148,8 @@ def predicates(rng, tier, only=None):
     for tag, c in [("canonical", proof), ("sig-as-pop", POP.Sign(sk, pk)), ("neg", enc_g2(O.aff_neg(dec_g2(proof)))),
                    ("flip", flip(proof, rng.randrange(768))), ("inf", enc_g2(None))]:
         ps.append(Pred("popverify-exact", pop_exact_pred, (pk, proof, tag, c)))
+    ps.append(Pred("cross-tag-history", cross_history_pred, (rng.randrange(1, O.BLS_R), rng.randrange(1, O.BLS_R))))
+    ps.append(Pred("aug-own-key-prefix", aug_prefix_pred, (rng.randrange(1, O.BLS_R), rng.choice([b"", b"msg"]))))
     if only:
         ps = [p for p in ps if p.name == only]
     return ps
